@@ -67,6 +67,9 @@ type Plan struct {
 	// tearing-down it places its finalizer on it (legal: finalizers may be added in any phase), i.e. right
 	// between the controller's Teardown and Destroy of that output.
 	ReactOut []int `json:"reactout,omitempty"`
+	// ReactDep (with Cleanup): a reactive third party puts its finalizer on a dependant the moment it turns tearing-down
+	// (between the cleanup handler's Teardown and Destroy of that dependant).
+	ReactDep bool `json:"reactdep,omitempty"`
 	// Cached lists the kinds served from the runtime read cache (0 inputs GA, 1 outputs GB, 2 dependants GC):
 	// controller reads of those kinds lag behind the store by the delivery delays.
 	Cached []int `json:"cached,omitempty"`
@@ -102,6 +105,7 @@ func Gen(ctrls []string) func(t *rapid.T) Plan {
 
 		if p.Cleanup {
 			p.Combine = rapid.Bool().Draw(t, "combine")
+			p.ReactDep = rapid.IntRange(0, 2).Draw(t, "reactdep") == 0
 		}
 
 		if rapid.IntRange(0, 3).Draw(t, "hasdrop") == 0 {
@@ -525,6 +529,31 @@ func runBubble(p Plan) *Result {
 						if IDs[ri] == id && ext.AddFinalizer(ctx, ev.Resource.Metadata(), ExtB) == nil {
 							hold(hres.TypeGB+"/"+id+"/"+ExtB, true)
 						}
+					}
+				}
+			}
+		}()
+	}
+
+	if p.ReactDep {
+		dch := make(chan state.Event)
+
+		for _, typ := range []string{hres.TypeGC, hres.TypeGD} {
+			if err := ext.WatchKind(ctx, resource.NewMetadata("n1", typ, "", resource.VersionUndefined), dch); err != nil {
+				res.Harness = "reactive dependant watch: " + err.Error()
+
+				return res
+			}
+		}
+
+		go func() {
+			for {
+				select {
+				case <-ctx.Done():
+					return
+				case ev := <-dch:
+					if ev.Type == state.Updated && ev.Resource.Metadata().Phase() == resource.PhaseTearingDown && ev.Old != nil && ev.Old.Metadata().Phase() == resource.PhaseRunning {
+						_ = ext.AddFinalizer(ctx, ev.Resource.Metadata(), "extC")
 					}
 				}
 			}
